@@ -271,6 +271,15 @@ def _case_excerpts(case, ctx):
             msg = 'single excerpt is not data[:size]'
     if msg:
         ctx.violation('bad_get_excerpts', case, '%s: %s' % (msg, out.tolist()))
+    elif (n + k + size) % 3 == 0:
+        # data with several values per sample (rows of a trace, feature vectors): the excerpts are ROWS of the data - the
+        # same rows as for the 1-D index vector above
+        for data2 in (np.c_[data, 2 * data + 1], np.stack([np.c_[data, -data]] * 3, axis=2)):
+            r2 = call(get_excerpts, data2, n_excerpts=k, excerpt_size=size)
+            if not r2.ok or same(np.asarray(r2.value), data2[out], dtype=False):
+                ctx.violation('bad_get_excerpts' if r2.ok else 'raised', dict(case, ndim=data2.ndim), 'data of shape %r: %s' % (
+                    data2.shape, r2.exc if not r2.ok else same(np.asarray(r2.value), data2[out], dtype=False)), tb=r2.tb)
+                break
 
 
 def _check_bounds(b, sizes, cs):
